@@ -115,7 +115,7 @@ def configs(tier):
 
 def make_tree(tape, root):
     os.mkdir(root)
-    n = 1 + tape.choose(6, "nent")
+    n = tape.choose(7, "nent")
     dirs = [root]
     for i in range(n):
         parent = tape.pick(dirs, "parent")
